@@ -28,6 +28,8 @@ const REQS: [Req; 3] = [Req::DhtPingB, Req::DhtFindC, Req::RrB];
 enum E {
     Ok(usize),
     WrongPeer(usize),
+    /// same id from the other connected peer, whose payload claims the contacted peer as its source
+    WrongPeerSpoof(usize),
     Unconnected(usize),
     NoResult(usize),
     AsRequest(usize),
@@ -56,6 +58,7 @@ fn ev_json(e: &E, reqs: &[Req]) -> Value {
     match e {
         E::Ok(i) => json!({"correct_reply_for": q(i)}),
         E::WrongPeer(i) => json!({"same_id_from_other_connected_peer": q(i)}),
+        E::WrongPeerSpoof(i) => json!({"same_id_from_other_connected_peer_claiming_the_contacted_peer_as_source": q(i)}),
         E::Unconnected(i) => json!({"same_id_from_unconnected_identity": q(i)}),
         E::NoResult(i) => json!({"response_without_result": q(i)}),
         E::AsRequest(i) => json!({"id_echoed_as_request": q(i)}),
@@ -150,7 +153,8 @@ fn run_seq(cx: &Ctx<'_>, reqs: &[Req], seq: &[E], held: bool) -> u64 {
         let mut marker = 0u32;
         let mut broadcast_rr_responses = 0usize;
         // helper: frame builders
-        let dht_msg = |id: &str, t: DhtMessageType, result: Option<DhtNetworkResult>| DhtNetworkMessage { message_id: id.to_string(), source: "scripted".into(), target: None, message_type: t, payload: DhtNetworkOperation::Ping, result, timestamp: now_secs(), ttl: 9, hop_count: 1 };
+        let claimed_source = std::cell::RefCell::new(String::from("scripted"));
+        let dht_msg = |id: &str, t: DhtMessageType, result: Option<DhtNetworkResult>| DhtNetworkMessage { message_id: id.to_string(), source: claimed_source.borrow().clone(), target: None, message_type: t, payload: DhtNetworkOperation::Ping, result, timestamp: now_secs(), ttl: 9, hop_count: 1 };
         let rr_frame = |id: &str, is_response: bool, payload: &[u8], proto: &str| {
             #[derive(serde::Serialize)]
             struct Env {
@@ -171,16 +175,17 @@ fn run_seq(cx: &Ctx<'_>, reqs: &[Req], seq: &[E], held: bool) -> u64 {
             step = ei;
             // apply event
             match e {
-                E::Ok(i) | E::WrongPeer(i) | E::Unconnected(i) | E::NoResult(i) | E::AsRequest(i) | E::AsBroadcast(i) | E::AsError(i) | E::CrossProtocol(i) => {
+                E::Ok(i) | E::WrongPeer(i) | E::WrongPeerSpoof(i) | E::Unconnected(i) | E::NoResult(i) | E::AsRequest(i) | E::AsBroadcast(i) | E::AsError(i) | E::CrossProtocol(i) => {
                     let Some(id) = ids[*i].clone() else { continue };
                     marker += 1;
                     let mk = format!("marker{marker}");
                     let is_dht = reqs[*i] != Req::RrB;
                     let (sender_tid, _sender_hex) = match e {
-                        E::WrongPeer(_) => other_peer(*i),
+                        E::WrongPeer(_) | E::WrongPeerSpoof(_) => other_peer(*i),
                         E::Unconnected(_) => (d_tid, hex::encode(d_tid)),
                         _ => right_peer(*i),
                     };
+                    *claimed_source.borrow_mut() = if matches!(e, E::WrongPeerSpoof(_)) { right_peer(*i).1 } else { "scripted".into() };
                     let bytes = match (is_dht, e) {
                         (true, E::NoResult(_)) => dht_frame("scripted", &dht_msg(&id, DhtMessageType::Response, None)),
                         (true, E::AsRequest(_)) => dht_frame("scripted", &dht_msg(&id, DhtMessageType::Request, None)),
@@ -429,7 +434,7 @@ fn main() {
         };
         let mut alpha: Vec<E> = Vec::new();
         for i in 0..r {
-            alpha.extend([E::Ok(i), E::WrongPeer(i), E::Unconnected(i), E::NoResult(i), E::AsRequest(i), E::AsBroadcast(i), E::AsError(i), E::CrossProtocol(i), E::Abort(i)]);
+            alpha.extend([E::Ok(i), E::WrongPeer(i), E::WrongPeerSpoof(i), E::Unconnected(i), E::NoResult(i), E::AsRequest(i), E::AsBroadcast(i), E::AsError(i), E::CrossProtocol(i), E::Abort(i)]);
         }
         alpha.extend([E::UnknownDht, E::UnknownRr, E::Time]);
         for held in [false, true] {
@@ -459,7 +464,7 @@ fn main() {
             let r = reqs.len();
             let mut alpha: Vec<E> = Vec::new();
             for i in 0..r {
-                alpha.extend([E::Ok(i), E::WrongPeer(i), E::Unconnected(i), E::NoResult(i), E::AsRequest(i), E::AsBroadcast(i), E::AsError(i), E::CrossProtocol(i), E::Abort(i)]);
+                alpha.extend([E::Ok(i), E::WrongPeer(i), E::WrongPeerSpoof(i), E::Unconnected(i), E::NoResult(i), E::AsRequest(i), E::AsBroadcast(i), E::AsError(i), E::CrossProtocol(i), E::Abort(i)]);
             }
             alpha.extend([E::UnknownDht, E::UnknownRr, E::Time]);
             if *held {
